@@ -662,6 +662,7 @@ KNOWN_CLASSES = {
     "state_builtins": _cls_calls("set_state", "reset_state", "check_state", "condition", "probabilityX", "print_state"),
     "db_library": _cls_calls("csv_load", "sqlite_load"),
     "calls_retract": _cls_calls("retract"),
+    "calls_clause": _cls_calls("clause"),
     "calls_find_scope": _cls_calls("find_scope"),
     "calls_subquery": _cls_calls("subquery"),
     "aggregate_head": lambda case, failure: isinstance(case, dict) and "<" in case.get("src", "") and ">" in case.get("src", ""),
